@@ -210,6 +210,24 @@ template <bool NeedsAlignment, std::size_t Alignment>
     return position;
 }
 
+// Padding needed to reach the next multiple of `Alignment` from `offset`. `offset` is relative to a position that is
+// only known to be a multiple of `known_alignment` (behind a VaryingSize parameter), so when that is less than
+// `Alignment` the exact padding is not known in advance and the largest possible one must be reserved.
+template <bool NeedsAlignment, std::size_t Alignment>
+[[nodiscard]] constexpr std::size_t worst_case_padding(std::size_t offset, std::size_t exact_padding,
+                                                       std::size_t known_alignment) noexcept
+{
+    if constexpr (NeedsAlignment && Alignment > 1)
+    {
+        if (known_alignment < Alignment)
+        {
+            const auto remainder = offset % known_alignment;
+            return Alignment - (remainder == 0 ? known_alignment : remainder);
+        }
+    }
+    return exact_padding;
+}
+
 template <class T>
 [[nodiscard]] constexpr T extract_lowest_set_bit(T value) noexcept
 {
